@@ -22,6 +22,7 @@ type op struct {
 	A    int    `json:"a,omitempty"`
 	B    int    `json:"b,omitempty"`
 	Mask uint32 `json:"m,omitempty"`
+	D    int    `json:"d,omitempty"` // propT: one account named twice: 1/2 identical string (last/first), 3/4 upper-case spelling (last/first)
 }
 
 type c18Case struct {
@@ -123,7 +124,7 @@ func (g *opw) noiseOp() {
 	case 6:
 		g.emit(op{K: "end", A: gen.OneOf(rt, "dt", 1, 1, 1, 2, 3)})
 	case 7:
-		g.emit(op{K: "propT", Mask: g.memberMask(), A: gen.Uniform(rt, "thr", 4), B: g.execOffset(5)})
+		g.emit(op{K: "propT", D: g.dupD(1, 6), Mask: g.memberMask(), A: gen.Uniform(rt, "thr", 4), B: g.execOffset(5)})
 	case 8:
 		g.emit(op{K: "propF", A: gen.OneOf(rt, "fsel", 0, 1, 2, 100, 101, selDKG, selFallen, selExpired, selGhost), B: g.execOffset(2)})
 	case 9:
@@ -163,9 +164,9 @@ func (g *opw) transitionSegment() {
 	target := gen.Pick(rt, "target", 3, 1, 1, 5, 5, 1)
 	need := []int{7, 2, 3, 4, 5, 1}[target]
 	if target == 5 {
-		g.emit(op{K: "propT", Mask: g.memberMask(), A: gen.Uniform(rt, "thr", 4), B: g.c.Min + gen.OneOf(rt, "p5", 0, 0, 1)})
+		g.emit(op{K: "propT", D: g.dupD(1, 10), Mask: g.memberMask(), A: gen.Uniform(rt, "thr", 4), B: g.c.Min + gen.OneOf(rt, "p5", 0, 0, 1)})
 	} else {
-		g.emit(op{K: "propT", Mask: g.memberMask(), A: gen.Uniform(rt, "thr", 4), B: g.execOffset(need)})
+		g.emit(op{K: "propT", D: g.dupD(1, 10), Mask: g.memberMask(), A: gen.Uniform(rt, "thr", 4), B: g.execOffset(need)})
 	}
 	g.noise(1, 8)
 	g.emit(op{K: "end", A: 1})
@@ -173,7 +174,7 @@ func (g *opw) transitionSegment() {
 		if gen.Chance(rt, "secondF", 1, 2) {
 			g.emit(op{K: "propF", A: gen.OneOf(rt, "fsel", 0, 1, 100), B: g.execOffset(3)})
 		} else {
-			g.emit(op{K: "propT", Mask: g.memberMask(), A: gen.Uniform(rt, "thr", 4), B: g.execOffset(6)})
+			g.emit(op{K: "propT", D: g.dupD(1, 6), Mask: g.memberMask(), A: gen.Uniform(rt, "thr", 4), B: g.execOffset(6)})
 		}
 		if gen.Chance(rt, "second-sameblock", 1, 2) {
 			g.emit(op{K: "end", A: 1})
@@ -246,7 +247,7 @@ func (g *opw) forceSegment() {
 	g.noise(1, 8)
 	g.emit(op{K: "end", A: 1})
 	if gen.Chance(rt, "second", 1, 6) {
-		g.emit(op{K: "propT", Mask: g.memberMask(), A: gen.Uniform(rt, "thr", 4), B: g.execOffset(6)}, op{K: "end", A: 1})
+		g.emit(op{K: "propT", D: g.dupD(1, 6), Mask: g.memberMask(), A: gen.Uniform(rt, "thr", 4), B: g.execOffset(6)}, op{K: "end", A: 1})
 	}
 	g.emit(op{K: "endv", A: gen.OneOf(rt, "vn", 0, 0, 0, 1)})
 	for i, n := 0, gen.Range(rt, "waitn", 0, 2); i < n; i++ {
@@ -262,6 +263,41 @@ func (g *opw) forceSegment() {
 		g.emit(op{K: "end", A: 1})
 	}
 	g.end(true)
+	g.after()
+}
+
+// dupD: with probability num/den the member list of a MsgTransitionGroup names one account twice (see op.D)
+func (g *opw) dupD(num, den int) int {
+	if !gen.Chance(g.rt, "dupmember", num, den) {
+		return 0
+	}
+	return gen.OneOf(g.rt, "dupkind", 1, 2, 3, 3, 3, 4, 4, 4)
+}
+
+// dupMemberSegment: a MsgTransitionGroup whose member list names one account twice - mostly as the lower-case and the
+// ALL-UPPER-CASE bech32 spelling of one address, which the message's own validation (it compares strings) lets
+// through - with nothing else wrong, followed by everything a transition needs: all member ids (the doubled
+// account acts for each of its ids) run the three key-generation rounds, the current group signs the hand-over, the
+// chain reaches ExecTime. A group with one account under two member ids must never come into existence.
+func (g *opw) dupMemberSegment() {
+	rt, c := g.rt, g.c
+	if c.Max < c.Min+8 {
+		c.Max = c.Min + 8
+	}
+	if c.Creation < 6 {
+		c.Creation = 6
+	}
+	g.emit(op{K: "actall"}, op{K: "desall", B: 2}, op{K: "end", A: 1})
+	d := gen.OneOf(rt, "dupkind", 1, 2, 3, 3, 3, 3, 4, 4, 4, 4)
+	g.emit(op{K: "propT", D: d, Mask: g.memberMask(), A: gen.Uniform(rt, "thr", 4), B: gen.Range(rt, "offd", 6, 8)}, op{K: "end", A: 1}, op{K: "endv"})
+	for r := 0; r < 3; r++ {
+		g.emit(op{K: "dkg", Mask: 0xff}, op{K: "end", A: 1})
+	}
+	if gen.Chance(rt, "reqWS", 1, 3) {
+		g.emit(op{K: "req", A: gen.Uniform(rt, "u", nReq)})
+	}
+	g.emit(op{K: "sign", Mask: 0xff}, op{K: "end", A: 1})
+	g.emit(op{K: "endx", A: gen.OneOf(rt, "xn", 0, 0, 1)})
 	g.after()
 }
 
@@ -481,7 +517,9 @@ func genC18(rt *rapid.T) c18Case {
 	nseg := rapid.IntRange(1, 3).Draw(rt, "nseg")
 	for i := 0; i < nseg; i++ {
 		g.starve = gen.Chance(rt, "starve", 1, 4)
-		switch gen.Pick(rt, "seg", 6, 3, 1, 1, 4) {
+		switch gen.Pick(rt, "seg", 6, 3, 1, 1, 4, 4) {
+		case 5:
+			g.dupMemberSegment()
 		case 4:
 			g.forceNonActiveSegment()
 		case 3:
